@@ -371,6 +371,186 @@ def ob_assigned_detection(run, mir, rp, fam):
     e2.prove(run, ob, ex, [], conj(claims), {}, fam.as_replay("assigned-detection:", only=["field-"]))
 
 
+def ob_env_setters(run, mir, rp, fam):
+    """Frame conditions of the Environment: every setter changes its own field and nothing else; shadow offsets."""
+    ob = run.ob("environment-setters", "E2", "no Environment method that returns a modified copy changes the defined variables, the shadow table or the unassigned set "
+                "unless it is the method for that field (with_unassigned, assigned_to, remove_var, override_mapping, insert_var), and those "
+                "build the new value from the old one and their argument; insert_var gives a name that is already mapped locally a strictly "
+                "larger offset (else the global one, else 0), records that offset and stores the variable under format_var_map(name, offset); "
+                "get_var looks the name up under the local offset first, then the global one, then bare",
+                ["Environment::{in_class, in_fun, is_def_mode, is_destruct_mode, is_expr, in_loop, return_type, with_unassigned, raises_caught, "
+                 "assigned_to, remove_var, override_mapping, insert_var, get_var}"])
+    fields = e2.rust_struct(ckern.ENV_RS, "Environment")
+    direct = {"in_fun": ("in_fun", "arg"), "is_def_mode": ("is_def_mode", "arg"), "is_destruct_mode": ("is_destruct_mode", "arg"),
+              "is_expr": ("is_expr", "arg"), "in_loop": ("in_loop", True), "return_type": ("return_type", "some-arg"),
+              "in_class": ("class", "some-arg"), "with_unassigned": ("unassigned", "arg"), "raises_caught": ("raises_caught", "op:union"),
+              "assigned_to": ("unassigned", "op:remove"), "remove_var": ("vars", "op:remove"), "override_mapping": ("var_mapping", "op:insert")}
+    relevant = ("vars", "var_mapping", "unassigned")     # what definite assignment is decided from
+    claims = []
+    n = 0
+    for meth, (target, how) in direct.items():
+        fn = e2.find1(mir, file=ckern.ENV_RS, impl="impl Environment", name=meth)
+        ex = Exec(mir, max_paths=500)
+        st = State()
+        env, evs = ckern.sym_env(ex, st)
+        args = [env]
+        argv = []
+        for an, aty in fn.args[1:]:
+            t = aty.strip()
+            if t == "bool":
+                v = z3.Bool(f"{meth}.arg{an}")
+            elif t == "usize":
+                v = z3.BitVec(f"{meth}.arg{an}", 64)
+            elif t.startswith("&") and t != "&str":
+                v = Ref(ex.new_cell(st, opq(f"{meth}.arg{an}", t.lstrip("&"))))
+            else:
+                v = opq(f"{meth}.arg{an}", t)
+            args.append(v)
+            argv.append(v)
+        ends = e2.run_kernel(run, ex, fn, args, st)
+        rets = [p for p in ends if p.kind == "return"]
+        if not rets:
+            raise Unsupported(f"Environment::{meth}: no return path")
+        for p in rets:
+            n += 1
+            r = p.ret
+            s_ = p.state
+            if not (isinstance(r, Agg) and list(r.names or []) == fields):
+                claims.append(z3.Implies(conj(p.cond), z3.BoolVal(False)))
+                continue
+            cl = []
+            for f, v in zip(fields, r.fields):
+                old = evs[f]
+                if f not in relevant:
+                    continue
+                if f != target:
+                    try:
+                        cl.append(ex.to_val(s_, v) == ex.to_val(s_, old) if not (z3.is_expr(v) and z3.is_expr(old) and v.sort() == old.sort()) else v == old)
+                    except Unsupported:
+                        cl.append(z3.BoolVal(False))
+                    continue
+                a0 = argv[0] if argv else None
+                if how == "arg":
+                    av = ex.read_ref(s_, a0) if isinstance(a0, Ref) else a0
+                    cl.append(v == av if (z3.is_expr(v) and z3.is_expr(av) and v.sort() == av.sort()) else ex.to_val(s_, v) == ex.to_val(s_, av))
+                elif how is True:
+                    cl.append(v == z3.BoolVal(True) if z3.is_bool(v) else z3.BoolVal(False))
+                elif how == "some-arg":
+                    good = isinstance(v, Agg) and v.variant == "Some"
+                    cl.append(z3.BoolVal(good))
+                    if good:
+                        cl.append(ex.to_val(s_, v.fields[0]) == ex.to_val(s_, a0))
+                else:
+                    op = how.split(":")[1]
+                    t = ex.to_val(s_, v)
+                    sub = {}
+                    stack = [t]
+                    while stack:
+                        x = stack.pop()
+                        if x.get_id() in sub:
+                            continue
+                        sub[x.get_id()] = x
+                        stack.extend(x.children())
+                    heads = " ".join(x.decl().name() for x in sub.values() if z3.is_app(x))
+                    has_old = ex.to_val(s_, old).get_id() in sub
+                    has_arg = any(ex.to_val(s_, a).get_id() in sub for a in argv)
+                    evs_ = [e_ for e_ in p.events if e_["name"].split("::")[-1] == op]
+                    cl.append(z3.BoolVal(bool(has_old and (op in heads or evs_) and (has_arg or evs_))))
+            claims.append(z3.Implies(conj(p.cond), conj(cl)))
+    # insert_var / get_var: the shadow offset rule
+    def m_get(ex_, st_, fr, callee, args, argtys, dty):
+        k = len(st_.events)
+        off = z3.BitVec(f"mapped{k}", 64)
+        r = Opq(z3.Const(f"get{k}", Val), "Option<&usize>", {("v", "Some"): Agg("Option", "Some", [Ref(ex_.new_cell(st_, off))])})
+        st_.events.append({"callee": callee, "name": "HashMap::get", "args": args, "argvals": [ex_.to_val(st_, a) for a in args],
+                           "ret": r, "off": off, "in": ex_.canon_item(fr.fn), "depth": len(st_.frames), "ncond": len(st_.cond)})
+        return r
+    get_model = [(r"^HashMap::<std::string::String, usize>::get::<str>$", m_get)]
+    fn = e2.find1(mir, file=ckern.ENV_RS, impl="impl Environment", name="insert_var")
+    ex = Exec(mir, models=list(get_model), max_paths=2000)
+    st = State()
+    env, evs = ckern.sym_env(ex, st)
+    var = opq("var", "&str")
+    gmap = Ref(ex.new_cell(st, opq("global_mapping", "VarMapping")))
+    ends = e2.run_kernel(run, ex, fn, [env, z3.Bool("mutable"), var, Ref(ex.new_cell(st, opq("expect", "Expected"))), gmap], st)
+    for p in ends:
+        if p.kind == "panic":
+            continue          # offset + 1 at usize::MAX
+        n += 1
+        s_ = p.state
+        gets = [e_ for e_ in p.events if e_["name"].endswith("HashMap::get")]
+        fmt = [e_ for e_ in p.events if e_["name"].endswith("format_var_map")]
+        ins = [e_ for e_ in p.events if e_["name"].endswith("HashMap::insert")]
+        ok = len(fmt) == 1 and len(ins) == 2 and 1 <= len(gets) <= 2
+        cl = [z3.BoolVal(ok)]
+        if ok:
+            off = fmt[0]["args"][1]
+            off = ex.read_ref(s_, off) if isinstance(off, Ref) else off
+            d0 = ex.discr(s_, gets[0]["ret"], "Option")
+            local_first = gets[0]["argvals"][0] == ex.to_val(s_, evs["var_mapping"])
+            cl.append(local_first)
+            pay0 = gets[0]["off"]
+            if len(gets) == 1:
+                cl.append(z3.And(d0 == 1, z3.UGT(off, pay0)) if z3.is_bv(off) and z3.is_bv(pay0) else z3.BoolVal(False))
+            else:
+                d1 = ex.discr(s_, gets[1]["ret"], "Option")
+                pay1 = gets[1]["off"]
+                cl.append(z3.And(d0 == 0, gets[1]["argvals"][0] == ex.to_val(s_, gmap)))
+                if z3.is_bv(off) and z3.is_bv(pay1):
+                    cl.append(z3.If(d1 == 1, off == pay1, off == 0))
+                else:
+                    cl.append(z3.BoolVal(False))
+            # the mapping records the offset, the variable is stored under the formatted name
+            map_ins = [e_ for e_ in ins if z3.is_bv(e_["args"][2]) or "usize" in str(e_["callee"])]
+            key_ins = [e_ for e_ in ins if z3.eq(e_["argvals"][1], ex.to_val(s_, fmt[0]["ret"]))]
+            cl.append(z3.BoolVal(len(key_ins) == 1))
+            other = [e_ for e_ in ins if e_ not in key_ins]
+            if len(other) == 1 and z3.is_bv(other[0]["args"][2]) and z3.is_bv(off):
+                cl.append(other[0]["args"][2] == off)
+            else:
+                cl.append(z3.BoolVal(False))
+        claims.append(z3.Implies(conj(p.cond), conj(cl)))
+    fn = e2.find1(mir, file=ckern.ENV_RS, impl="impl Environment", name="get_var")
+    exg = Exec(mir, models=list(get_model), max_paths=2000)
+    st = State()
+    env, evs = ckern.sym_env(exg, st)
+    gmap = Ref(exg.new_cell(st, opq("global_mapping", "VarMapping")))
+    var = opq("var", "&str")
+    ends = e2.run_kernel(run, exg, fn, [env, var, gmap], st)
+    claims_g = []
+    for p in ends:
+        if p.kind != "return":
+            continue
+        n += 1
+        s_ = p.state
+        gets = [e_ for e_ in p.events if e_["name"].endswith("HashMap::get")]
+        fmt = [e_ for e_ in p.events if e_["name"].endswith("format_var_map")]
+        ok = 2 <= len(gets) <= 3
+        cl = [z3.BoolVal(ok)]
+        if ok:
+            cl.append(gets[0]["argvals"][0] == exg.to_val(s_, evs["var_mapping"]))
+            d0 = exg.discr(s_, gets[0]["ret"], "Option")
+            last = gets[-1]
+            cl.append(last["argvals"][0] == exg.to_val(s_, evs["vars"]))
+            if len(gets) == 2:
+                cl.append(z3.And(d0 == 1, z3.BoolVal(len(fmt) == 1)))
+            else:
+                cl.append(z3.And(d0 == 0, gets[1]["argvals"][0] == exg.to_val(s_, gmap)))
+            if fmt:
+                key = last["args"][1]
+                key = exg.read_ref(s_, key) if isinstance(key, Ref) else key
+                cl.append(exg.to_val(s_, key) == exg.to_val(s_, fmt[0]["ret"]))
+        claims_g.append(z3.Implies(conj(p.cond), conj(cl)))
+    if n < 15:
+        raise Unsupported(f"only {n} setter paths")
+    e2.prove(run, ob, ex, [], conj(claims), {},
+             fam.as_replay("environment-setters:", only=["shadow", "defined-", "one-branch", "loop-variable", "block-", "field-"]))
+    if ob.status == "discharged":
+        ob.status = "pending"
+        e2.prove(run, ob, exg, [], conj(claims_g), {}, fam.as_replay("environment-setters:", only=["shadow", "defined-", "block-"]))
+    run.samples.append({"obligation": ob.id, "paths": n})
+
+
 def run(run):
     mir = e2.load_mir(run)
     rp = common.Replay()
@@ -380,7 +560,7 @@ def run(run):
                "outside: forward references between top-level definitions, comprehension variables, class scopes, match arms (constrain_cases loop)")
     run.trusted += ["rustc nightly MIR dump", "mirsym MIR semantics", "z3"]
     run.bounds = {"paths": "all paths, loops cut at headers"}
-    for f in (ob_lookup, ob_sequencing, ob_flow, ob_env_ops, ob_self_field, ob_assigned_detection):
+    for f in (ob_lookup, ob_sequencing, ob_flow, ob_env_ops, ob_env_setters, ob_self_field, ob_assigned_detection):
         try:
             f(run, mir, rp, fam)
         except Unsupported as e:
